@@ -170,6 +170,14 @@ func runCase(t fataler, c *dbCase) map[string]int {
 			t.Fatalf("harness: prefill %v failed: %s", p, err)
 		}
 	}
+	for _, db := range c.BulkDBs {
+		for i := 0; i < c.Bulk; i++ {
+			p := prefill{Key: fmt.Sprintf("%s:%sbulk%03d", db, c.NS, i), Form: "json", Object: fmt.Sprintf(`{"Name":"bulk","N":%d}`, i)}
+			if err := storePrefill(p); err != nil {
+				t.Fatalf("harness: prefill %v failed: %s", p, err)
+			}
+		}
+	}
 	timePrefill += time.Since(t0)
 	r := &runner{t: t, c: c, conn: newConn(), m: &model{recs: map[string]*recState{}, subs: map[string]*subState{}}}
 	for _, p := range c.Prefill {
@@ -179,6 +187,7 @@ func runCase(t fataler, c *dbCase) map[string]int {
 			}
 		}
 	}
+	r.conn.sendYields = c.SendYields
 	// nothing of an earlier case may still be running
 	if total, _, dump := handlerGoroutines(); total != 0 {
 		t.Fatalf("harness: %d database API handler goroutines are alive before the case starts\n%s", total, dump)
